@@ -19,6 +19,20 @@ package c18
 // = (text/blank only: exactly) or + (above it by half a PEM block, so that the boundary falls INSIDE the block that stands
 // last - one byte more would only push the final newline over it; certs: the smallest bundle that reaches that size). The
 // file is built, deterministically for the worker's material, right before the point is evaluated and removed afterwards.
+//
+// Added in the tenth round: FOREIGN PEM BLOCKS in the CA file. A PEM file may hold blocks of any type (RFC 7468); a CA
+// file that also holds a CRL, a private key, EC parameters, a certificate request, an OpenSSL TRUSTED CERTIFICATE, an
+// encrypted legacy key (a block with headers) or a block of a type nobody knows still supplies every CERTIFICATE block
+// it holds as a root, wherever those stand relative to the other blocks. Two shapes:
+//
+//   - foreign: a padding kind of the sized CA files (ca1~foreign~64k+~last): the bundle of filler roots with one
+//     foreign block (the kinds in turn) in front of every filler root;
+//   - small files ca1~blk-<kind>~small~<layout>: layout is the order of the blocks, R = the root that certifies
+//     listener s1, f = a filler root, X = the foreign block (kind "all": one block of every kind where X stands).
+//
+// The roots owed are the certificates the monitor wrote as CERTIFICATE blocks. The TRUSTED CERTIFICATE block wraps a
+// certificate that the same file also holds as a CERTIFICATE block (CA one), so that a reader that understands OpenSSL's
+// format and one that skips the block owe the same pool.
 
 import (
 	"bytes"
@@ -28,6 +42,7 @@ import (
 	"crypto/x509"
 	"encoding/pem"
 	"fmt"
+	"math/big"
 	"os"
 	"path/filepath"
 	"strings"
@@ -39,6 +54,42 @@ type sizedSpec struct {
 	bound string // 4k | 32k | 64k | 1m
 	rel   string // - | = | +
 	pos   string // first | last: where the needed block stands
+	// small CA files with foreign PEM blocks (bound, rel and pos are empty): ca1~blk-<kind>~small~<layout>
+	kind   string // a foreign block kind, or "all"
+	layout string // order of the blocks: R = CA one, f = a filler root, X = the foreign block(s)
+}
+
+// foreignKinds are the PEM blocks that are no CERTIFICATE which a CA file may hold besides its roots.
+var foreignKinds = []string{"crl", "ecparams", "key", "eckey", "csr", "trusted", "unknown", "headers"}
+
+// mixLayouts: the foreign block before, between and after the roots, and around every one of them.
+var mixLayouts = []string{"XRf", "RXf", "fXR", "RfX", "XfXRX"}
+
+func isForeignKind(k string) bool {
+	if k == "all" {
+		return true
+	}
+	for _, f := range foreignKinds {
+		if f == k {
+			return true
+		}
+	}
+	return false
+}
+
+func isMixLayout(l string) bool {
+	for _, k := range mixLayouts {
+		if k == l {
+			return true
+		}
+	}
+	return false
+}
+
+// rootFollows: does a CERTIFICATE block stand after a foreign block of the layout?
+func rootFollows(layout string) bool {
+	i := strings.Index(layout, "X")
+	return i >= 0 && strings.ContainsAny(layout[i:], "Rf")
 }
 
 var sizeBounds = []struct {
@@ -60,6 +111,13 @@ func parseSized(name string) (s sizedSpec, ok bool) {
 	if len(parts) != 4 || len(parts[2]) < 2 {
 		return s, false
 	}
+	if parts[2] == "small" {
+		s = sizedSpec{base: parts[0], pad: parts[1], kind: strings.TrimPrefix(parts[1], "blk-"), layout: parts[3]}
+		if s.base != "ca1" || !strings.HasPrefix(parts[1], "blk-") || !isForeignKind(s.kind) || !isMixLayout(s.layout) {
+			return s, false
+		}
+		return s, true
+	}
 	s = sizedSpec{base: parts[0], pad: parts[1], bound: parts[2][:len(parts[2])-1], rel: parts[2][len(parts[2])-1:], pos: parts[3]}
 	if _, _, known := boundOf(s.bound); !known {
 		return s, false
@@ -70,7 +128,7 @@ func parseSized(name string) (s sizedSpec, ok bool) {
 		return s, false
 	}
 	switch s.pad {
-	case "certs":
+	case "certs", "foreign":
 		if s.rel == "=" || s.base != "ca1" {
 			return s, false
 		}
@@ -87,7 +145,12 @@ func parseSized(name string) (s sizedSpec, ok bool) {
 	return s, true
 }
 
-func (s sizedSpec) name() string { return s.base + "~" + s.pad + "~" + s.bound + s.rel + "~" + s.pos }
+func (s sizedSpec) name() string {
+	if s.layout != "" {
+		return s.base + "~blk-" + s.kind + "~small~" + s.layout
+	}
+	return s.base + "~" + s.pad + "~" + s.bound + s.rel + "~" + s.pos
+}
 
 func isSized(name string) bool { _, ok := parseSized(name); return ok }
 
@@ -95,11 +158,22 @@ func usesSized(p Point) bool { return isSized(p.CertFile) || isSized(p.KeyFile) 
 
 // sizeFeature is the input feature class of a sized file: on which side of which boundary its size lies.
 func (s sizedSpec) sizeFeature() string {
-	label, _, _ := boundOf(s.bound)
-	if s.rel == "+" {
-		return "file-over-" + label
+	if s.layout != "" {
+		// a small file: which foreign block, and whether a root stands after it
+		if rootFollows(s.layout) {
+			return "foreign-pem-block:" + s.kind + ":root-follows"
+		}
+		return "foreign-pem-block:" + s.kind + ":no-root-follows"
 	}
-	return "file-upto-" + label
+	label, _, _ := boundOf(s.bound)
+	f := "file-upto-" + label
+	if s.rel == "+" {
+		f = "file-over-" + label
+	}
+	if s.pad == "foreign" {
+		f += "+foreign-pem-blocks"
+	}
+	return f
 }
 
 // slotClass names a file slot's content in a signature: the lattice's names stand for themselves, a sized file is its
@@ -125,9 +199,9 @@ func sizedKind(name string) string {
 func sizedPoints() []Point {
 	var out []Point
 	for _, b := range sizeBounds {
-		for _, pad := range []string{"certs", "text", "blank"} {
+		for _, pad := range []string{"certs", "text", "blank", "foreign"} {
 			for _, rel := range []string{"-", "=", "+"} {
-				if pad == "certs" && rel == "=" {
+				if (pad == "certs" || pad == "foreign") && rel == "=" {
 					continue
 				}
 				for _, pos := range []string{"first", "last"} {
@@ -150,6 +224,17 @@ func sizedPoints() []Point {
 			nf := sizedSpec{base: "rsa", pad: pad, bound: b.token, rel: "+", pos: "first"}.name()
 			out = append(out, Point{CertFile: n, KeyFile: "rsa", LoadedCA: "ca1"}, Point{CertFile: "rsa", KeyFile: n, LoadedCA: "ca1"},
 				Point{CertFile: n, KeyFile: nf, LoadedCA: "ca1"}) // the last one: both files sized
+		}
+	}
+	// small CA files that hold foreign PEM blocks before, between and after their roots (alone; the layout with a filler
+	// root, the foreign block and then the needed root also appended to a loaded pool)
+	for _, kind := range append(append([]string{}, foreignKinds...), "all") {
+		for _, layout := range mixLayouts {
+			n := sizedSpec{base: "ca1", kind: kind, layout: layout}.name()
+			out = append(out, Point{CAFile: n})
+			if layout == "fXR" {
+				out = append(out, Point{CAFile: n, Pool: "ca2"})
+			}
 		}
 	}
 	return out
@@ -181,6 +266,91 @@ func (mt *material) filler(i int) (*x509.Certificate, []byte, error) {
 		mt.fillerPEM = append(mt.fillerPEM, pem.EncodeToMemory(&pem.Block{Type: "CERTIFICATE", Bytes: der}))
 	}
 	return mt.fillers[i], mt.fillerPEM[i], nil
+}
+
+// foreignBlock returns a PEM block that is no CERTIFICATE, of the given kind; built once per worker.
+func (mt *material) foreignBlock(kind string) ([]byte, error) {
+	if b, ok := mt.foreign[kind]; ok {
+		return b, nil
+	}
+	filling := func(n int, salt byte) []byte { // fixed bytes that are no DER of anything
+		out := make([]byte, n)
+		for i := range out {
+			out[i] = byte(i*7) ^ salt
+		}
+		return out
+	}
+	var blk *pem.Block
+	switch kind {
+	case "crl":
+		k, err := ecdsa.GenerateKey(elliptic.P256(), rand.Reader)
+		if err != nil {
+			return nil, err
+		}
+		t := template("verif crl issuer")
+		t.IsCA, t.BasicConstraintsValid, t.KeyUsage = true, true, x509.KeyUsageCertSign|x509.KeyUsageCRLSign
+		t.SubjectKeyId = []byte{1, 2, 3, 4}
+		der, err := x509.CreateCertificate(rand.Reader, t, t, &k.PublicKey, k)
+		if err != nil {
+			return nil, err
+		}
+		issuer, err := x509.ParseCertificate(der)
+		if err != nil {
+			return nil, err
+		}
+		crl, err := x509.CreateRevocationList(rand.Reader, &x509.RevocationList{Number: big.NewInt(1), ThisUpdate: t.NotBefore, NextUpdate: t.NotAfter}, issuer, k)
+		if err != nil {
+			return nil, err
+		}
+		blk = &pem.Block{Type: "X509 CRL", Bytes: crl}
+	case "ecparams":
+		blk = &pem.Block{Type: "EC PARAMETERS", Bytes: []byte{0x06, 0x08, 0x2a, 0x86, 0x48, 0xce, 0x3d, 0x03, 0x01, 0x07}} // prime256v1
+	case "key", "eckey", "csr":
+		k, err := ecdsa.GenerateKey(elliptic.P256(), rand.Reader) // a key of its own: no key of the monitor's certificates
+		if err != nil {
+			return nil, err
+		}
+		switch kind {
+		case "key":
+			der, err := x509.MarshalPKCS8PrivateKey(k)
+			if err != nil {
+				return nil, err
+			}
+			blk = &pem.Block{Type: "PRIVATE KEY", Bytes: der}
+		case "eckey":
+			der, err := x509.MarshalECPrivateKey(k)
+			if err != nil {
+				return nil, err
+			}
+			blk = &pem.Block{Type: "EC PRIVATE KEY", Bytes: der}
+		default:
+			der, err := x509.CreateCertificateRequest(rand.Reader, &x509.CertificateRequest{Subject: template("verif request").Subject}, k)
+			if err != nil {
+				return nil, err
+			}
+			blk = &pem.Block{Type: "CERTIFICATE REQUEST", Bytes: der}
+		}
+	case "trusted":
+		// OpenSSL's format: the certificate followed by its trust settings (here: trusted for serverAuth). The certificate
+		// is CA one, which every file that holds this block also holds as a CERTIFICATE block.
+		aux := []byte{0x30, 0x0c, 0x30, 0x0a, 0x06, 0x08, 0x2b, 0x06, 0x01, 0x05, 0x05, 0x07, 0x03, 0x01}
+		blk = &pem.Block{Type: "TRUSTED CERTIFICATE", Bytes: append(append([]byte{}, mt.ca1.Raw...), aux...)}
+	case "unknown":
+		blk = &pem.Block{Type: "VERIF OBJECT OF NO KNOWN TYPE", Bytes: filling(96, 0x5a)}
+	case "headers":
+		blk = &pem.Block{Type: "RSA PRIVATE KEY", Headers: map[string]string{"Proc-Type": "4,ENCRYPTED", "DEK-Info": "AES-256-CBC,0F1E2D3C4B5A69788796A5B4C3D2E1F0"}, Bytes: filling(208, 0xa5)}
+	default:
+		return nil, fmt.Errorf("c18: unknown foreign PEM block kind %q", kind)
+	}
+	b := pem.EncodeToMemory(blk)
+	if b == nil {
+		return nil, fmt.Errorf("c18: the foreign PEM block %q cannot be encoded", kind)
+	}
+	if mt.foreign == nil {
+		mt.foreign = map[string][]byte{}
+	}
+	mt.foreign[kind] = b
+	return b, nil
 }
 
 // textPadding is n bytes that are no part of any PEM block: explanatory text lines or blank lines; it ends in a newline.
@@ -216,9 +386,69 @@ func (mt *material) buildSized(s sizedSpec, kind string) (data []byte, roots []*
 	if len(needed) == 0 {
 		return nil, nil, fmt.Errorf("c18: no %s material for sized file %s", kind, s.name())
 	}
+	if s.layout != "" {
+		if kind != "ca" {
+			return nil, nil, fmt.Errorf("c18: only a CA file holds foreign PEM blocks: %s", s.name())
+		}
+		roots = nil
+		nf := 0
+		for _, b := range s.layout {
+			switch b {
+			case 'R':
+				data = append(data, mt.ca1PEM...)
+				roots = append(roots, mt.ca1)
+			case 'f':
+				c, p, ferr := mt.filler(nf)
+				if ferr != nil {
+					return nil, nil, ferr
+				}
+				nf++
+				data = append(data, p...)
+				roots = append(roots, c)
+			case 'X':
+				kinds := []string{s.kind}
+				if s.kind == "all" {
+					kinds = foreignKinds
+				}
+				for _, k := range kinds {
+					fb, ferr := mt.foreignBlock(k)
+					if ferr != nil {
+						return nil, nil, ferr
+					}
+					data = append(data, fb...)
+				}
+			}
+		}
+		return data, roots, nil
+	}
 	_, bound, _ := boundOf(s.bound)
 	var padBytes []byte
-	if s.pad == "certs" {
+	if s.pad == "foreign" {
+		if kind != "ca" {
+			return nil, nil, fmt.Errorf("c18: only a CA file is padded with foreign PEM blocks: %s", s.name())
+		}
+		// the bundle of filler roots, one foreign block (the kinds in turn) in front of every one of them
+		total := len(needed)
+		for i := 0; ; i++ {
+			c, p, ferr := mt.filler(i)
+			if ferr != nil {
+				return nil, nil, ferr
+			}
+			fb, ferr := mt.foreignBlock(foreignKinds[i%len(foreignKinds)])
+			if ferr != nil {
+				return nil, nil, ferr
+			}
+			if s.rel == "-" && total+len(fb)+len(p) > bound {
+				break
+			}
+			padBytes = append(append(padBytes, fb...), p...)
+			roots = append(roots, c)
+			total += len(fb) + len(p)
+			if s.rel == "+" && total >= bound+len(needed)/2 {
+				break
+			}
+		}
+	} else if s.pad == "certs" {
 		if kind != "ca" {
 			return nil, nil, fmt.Errorf("c18: only a CA file is padded with certificates: %s", s.name())
 		}
@@ -319,7 +549,14 @@ func describeSized(p Point, mat *material) string {
 			continue
 		}
 		d := fmt.Sprintf("%s: %d bytes", slot[2], len(mat.content[mat.files[slot[0]+"."+slot[1]]]))
+		if s.layout != "" {
+			d += fmt.Sprintf(", %d CERTIFICATE blocks and foreign PEM block(s) of kind %s in the order %s (R = the root that certifies listener s1, f = another root, X = foreign)", len(mat.sizedRoots[slot[0]]), s.kind, s.layout)
+			parts = append(parts, d)
+			continue
+		}
 		switch s.pad {
+		case "foreign":
+			d += fmt.Sprintf(", a bundle of %d certificates with a PEM block that is no CERTIFICATE (CRL, key, parameters, ...) in front of every one but the needed root", len(mat.sizedRoots[slot[0]]))
 		case "certs":
 			d += fmt.Sprintf(", a bundle of %d certificates", len(mat.sizedRoots[slot[0]]))
 		case "text":
